@@ -384,7 +384,10 @@ class StmtMixin:
                     if flag:
                         s2 = s2.fork()
                         if h.name:
-                            s2.env[h.name] = exc
+                            ev = exc
+                            if exc.k == 'ref' and exc.t is None and typ is not None and typ.k == 'class' and typ.v in self.repo.classes:
+                                ev = sv_ref(exc.v, 'inst:' + typ.v)      # isinstance established by the except clause
+                            s2.env[h.name] = ev
                         s2.cur_exc.append(exc)
                         for o in self.exec_block(h.body, s2, module):
                             if o.st.cur_exc and o.st.cur_exc[-1] is exc:
